@@ -101,8 +101,10 @@ func storesIntoType(c *Ctx, fn *ssa.Function, ownerSuffix string) []fstore {
 			}
 			// whole-struct store
 			if len(names) == 0 {
-				if pt, ok := st.Addr.Type().Underlying().(*types.Pointer); ok && strings.HasSuffix(ownerName(c, pt.Elem()), ownerSuffix) {
-					if _, isParamSpill := st.Val.(*ssa.Parameter); !isParamSpill {
+				if pt, ok := st.Addr.Type().Underlying().(*types.Pointer); ok && isNamedStruct(pt.Elem()) && strings.HasSuffix(ownerName(c, pt.Elem()), ownerSuffix) {
+					_, isParamSpill := st.Val.(*ssa.Parameter)
+					al, isLocal := st.Addr.(*ssa.Alloc)
+					if !isParamSpill && !(isLocal && !al.Heap) { // copies into plain local variables write no shared object
 						out = append(out, fstore{st, "", st.Addr})
 					}
 				}
@@ -124,58 +126,90 @@ func ruleProvIssuer(c *Ctx, r *Rep) {
 			byFn[fn] = append(byFn[fn], fs)
 		}
 	}
+	// drivers: the functions that build a certificate body from an entity's configuration and have it signed. The
+	// issuer context is checked where it is used (there), whichever helper assembled it.
+	type driverCalls struct{ body, sign *ssa.Call }
+	drivers := map[*ssa.Function]driverCalls{}
+	helperOf := map[*ssa.Function]*ssa.Function{} // module functions called (≤2 deep) from a driver
+	for _, fn := range c.Funcs {
+		var d driverCalls
+		for _, ci := range callsIn(fn) {
+			if f := ci.Common().StaticCallee(); f != nil && c.InModule(f) {
+				res := f.Signature.Results()
+				if res.Len() == 2 && strings.HasSuffix(typeShort(c, res.At(0).Type()), "cert.CertificateContext") && isErrorType(res.At(1).Type()) {
+					d.body, _ = ci.(*ssa.Call)
+				}
+				if res.Len() == 2 && strings.HasSuffix(typeShort(c, res.At(0).Type()), "cert.Certificate") && isErrorType(res.At(1).Type()) {
+					d.sign, _ = ci.(*ssa.Call)
+				}
+			}
+		}
+		if d.body != nil && d.sign != nil {
+			drivers[fn] = d
+			if _, ok := byFn[fn]; !ok {
+				byFn[fn] = nil
+			}
+			for _, ci := range callsIn(fn) {
+				if f := ci.Common().StaticCallee(); f != nil && c.InModule(f) && f.Blocks != nil {
+					helperOf[f] = fn
+					for _, ci2 := range callsIn(f) {
+						if g := ci2.Common().StaticCallee(); g != nil && c.InModule(g) && g.Blocks != nil {
+							if _, seen := helperOf[g]; !seen {
+								helperOf[g] = fn
+							}
+						}
+					}
+				}
+			}
+		}
+	}
 	var fns []*ssa.Function
 	for f := range byFn {
 		fns = append(fns, f)
 	}
 	sort.Slice(fns, func(i, j int) bool { return c.FuncKey(fns[i]) < c.FuncKey(fns[j]) })
 	seenConfigured := false
+	returnsIssuerCtx := func(fn *ssa.Function) bool {
+		res := fn.Signature.Results()
+		for i := 0; i < res.Len(); i++ {
+			if strings.HasSuffix(typeShort(c, res.At(i).Type()), "cert.IssuerContext") {
+				return true
+			}
+		}
+		return false
+	}
 	for _, fn := range fns {
 		fk := c.FuncKey(fn)
 		// classify the writer
-		var getArtifactCalls []*ssa.Call
-		for _, ci := range callsIn(fn) {
-			if ci.Common().IsInvoke() && ci.Common().Method.Name() == "GetBuildArtifact" {
-				getArtifactCalls = append(getArtifactCalls, ci.(*ssa.Call))
-			}
-		}
+		d, isDriver := drivers[fn]
 		switch {
-		case len(getArtifactCalls) > 0:
-			seenConfigured = true
+		case isDriver:
+			bodyCall, signCall := d.body, d.sign
 			// the entity's own configuration: what is handed to the body builder
-			var cfgO []string
-			var bodyCall, signCall *ssa.Call
-			for _, ci := range callsIn(fn) {
-				if f := ci.Common().StaticCallee(); f != nil && c.InModule(f) {
-					res := f.Signature.Results()
-					if res.Len() == 2 && strings.HasSuffix(typeShort(c, res.At(0).Type()), "cert.CertificateContext") {
-						bodyCall = ci.(*ssa.Call)
-						cfgO = pv.Origins(ci.Common().Args[0])
-					}
-					if res.Len() == 2 && strings.HasSuffix(typeShort(c, res.At(0).Type()), "cert.Certificate") {
-						signCall = ci.(*ssa.Call)
-					}
-				}
-			}
-			if bodyCall == nil || signCall == nil || len(cfgO) != 1 {
-				r.Undecided("shape:"+fk, c.FnPos(fn), "cannot identify the body-building and signing calls / the entity's configuration")
+			cfgO := pv.Origins(bodyCall.Call.Args[0])
+			if len(cfgO) != 1 {
+				r.Undecided("shape:"+fk, c.FnPos(fn), "the entity's configuration handed to the body builder has several origins")
 				continue
 			}
 			// own configuration is fetched for the function's alias parameter
-			r.Check(strings.HasPrefix(cfgO[0], "I:db.Database.GetConfig(") && strings.HasSuffix(cfgO[0], "#0"), "own-config|"+fk, c.Pos(bodyCall.Pos()), "the configuration handed on is GetConfig(alias)", cfgO[0])
-			var issuerBase string
-			for _, gc := range getArtifactCalls {
-				argO := pv.Origins(gc.Call.Args[0])
-				if len(argO) == 1 && argO[0] == cfgO[0]+".Issuer" {
-					o := pv.Origins(gc)
-					if len(o) == 1 {
-						issuerBase = o[0] + "#0"
-					}
-				}
-			}
-			if !r.Check(issuerBase != "", "issuer-artifact-lookup|"+fk, c.FnPos(fn), "GetBuildArtifact(<own config>.Issuer)", issuerBase) {
+			const getCfg = "I:db.Database.GetConfig("
+			if !r.Check(strings.HasPrefix(cfgO[0], getCfg) && strings.HasSuffix(cfgO[0], "#0"), "own-config|"+fk, c.Pos(bodyCall.Pos()), "the configuration handed on is GetConfig(alias)", cfgO[0]) {
 				continue
 			}
+			// the stored artifact of the configured issuer, looked up in the same database
+			backend := cfgO[0][len(getCfg):]
+			depth := 0
+			for i, ch := range backend {
+				if ch == '(' {
+					depth++
+				} else if ch == ')' {
+					depth--
+				} else if ch == '|' && depth == 0 {
+					backend = backend[:i]
+					break
+				}
+			}
+			issuerBase := "I:db.Database.GetBuildArtifact(" + backend + "|" + cfgO[0] + ".Issuer)#0"
 			// the issuer context handed to signing: the value whose address is stored into <ctx>.Issuer before the signing call
 			var ctxAlloc *ssa.Alloc
 			attached := false
@@ -217,7 +251,21 @@ func ruleProvIssuer(c *Ctx, r *Rep) {
 					continue
 				}
 				o := pv.loadFrom(ctxAlloc, []*types.Var{f}, 0)
-				expectSet(r, "issuer-context|"+fk+"|"+f.Name(), c.Pos(ctxAlloc.Pos()), o, "configured issuer: from the issuer's stored artifact (its Subject, not its Issuer); self-signed: from the entity's own context built just before", w[0], w[1])
+				for _, x := range o {
+					if strings.HasPrefix(x, issuerBase) {
+						seenConfigured = true
+					}
+				}
+				expectSet(r, "issuer-context|"+fk+"|"+f.Name(), c.Pos(ctxAlloc.Pos()), o, "configured issuer: from the issuer's stored artifact GetBuildArtifact(<own config>.Issuer) (its Subject, not its Issuer); self-signed: from the entity's own context built just before", w[0], w[1])
+			}
+			r.Check(seenConfigured, "issuer-artifact-lookup|"+fk, c.FnPos(fn), "GetBuildArtifact(<own config>.Issuer)", issuerBase)
+		case helperOf[fn] != nil && returnsIssuerCtx(fn) && !(fn.Signature.Results().Len() == 1 && len(fn.Params) == 1):
+			// a helper of a driver that assembles the context: its result is checked where the driver uses it
+			// (the helper is inlined into the driver's provenance), provided it can be inlined
+			if hasLoop(fn) {
+				r.Undecided("shape:"+fk, c.FnPos(fn), "issuer context assembled in a helper with a loop: cannot be followed to its use")
+			} else {
+				r.Ok("helper|"+fk, c.FnPos(fn), "assembles the issuer context for "+c.FuncKey(helperOf[fn])+"; checked at its use there", "inlined")
 			}
 		case fn.Signature.Results().Len() == 1 && strings.HasSuffix(typeShort(c, fn.Signature.Results().At(0).Type()), "cert.IssuerContext") && len(fn.Params) == 1:
 			// converters (AsIssuer and helpers): every field derives from the single parameter; what they are applied to is
@@ -1513,4 +1561,13 @@ func ruleMergeCopy(c *Ctx, r *Rep) {
 		got := strings.Join(conds, " ∧ ")
 		r.Check(got == "content.IsSet=false ∧ profile.IsSet=true", "validity-inheritance-guard", c.Pos(fs.st.Pos()), "inherit iff the certificate has no validity of its own and the profile has one", got)
 	}
+}
+
+func isNamedStruct(t types.Type) bool {
+	n, ok := t.(*types.Named)
+	if !ok {
+		return false
+	}
+	_, ok = n.Underlying().(*types.Struct)
+	return ok
 }
